@@ -25,6 +25,15 @@ type C19W struct {
 	Calls     [][]C19Call `json:"calls"`   // per plugin
 	Callers   [][]string  `json:"callers"` // lifecycle events per runtime caller
 	Unstarted bool        `json:"unstarted"`
+	// Kills: the plugin's connection dies (or its stub is stopped) while the runtime callback of
+	// the given call is in progress.
+	Kills []C19Kill `json:"kills,omitempty"`
+}
+
+type C19Kill struct {
+	Plugin int    `json:"plugin"`
+	Call   int    `json:"call"`
+	Mode   string `json:"mode"` // kill | stop
 }
 
 func c19Gen(rng *rand.Rand, conf string, idx int) any {
@@ -45,6 +54,12 @@ func c19Gen(rng *rand.Rand, conf string, idx int) any {
 			calls = append(calls, cl)
 		}
 		w.Calls = append(w.Calls, calls)
+	}
+	if rng.Intn(3) == 0 {
+		k := rng.Intn(n)
+		if len(w.Calls[k]) > 0 {
+			w.Kills = append(w.Kills, C19Kill{Plugin: k, Call: rng.Intn(len(w.Calls[k])), Mode: pick(rng, []string{"kill", "stop"})})
+		}
 	}
 	for c, m := 0, rng.Intn(4); c < m; c++ {
 		var evs []string
@@ -139,6 +154,34 @@ func c19Run(t *testing.T, wl any, sc SchedCfg) *Result {
 			res.Violate("C19.setup", "registration: %v; pending %v", err, e.S.Pending())
 			return
 		}
+		deadFrom := map[int]int{} // plugin -> first call whose outcome is not asserted
+		for ki, kl := range w.Kills {
+			ki, kl := ki, kl
+			if kl.Plugin >= len(plugs) || kl.Call >= len(w.Calls[kl.Plugin]) || w.Calls[kl.Plugin][kl.Call].N == 0 {
+				continue
+			}
+			deadFrom[kl.Plugin] = kl.Call
+			pname := w.Plugins[kl.Plugin].Name
+			e.S.Add(&simItem{Key: fmt.Sprintf("fault:%s:%s:%d", kl.Mode, pname, kl.Call), Owner: "fault",
+				Ready: func() bool {
+					h.mu.Lock()
+					defer h.mu.Unlock()
+					for _, ev := range h.UpdLog {
+						if pn, c, ok := callOf(ev.Updates); ok && pn == pname && c == kl.Call && ev.Exit < 0 {
+							return true
+						}
+					}
+					return false
+				},
+				Fire: func(int) {
+					e.S.Probe("C19.fault." + kl.Mode + "-during-callback")
+					if kl.Mode == "kill" {
+						plugs[kl.Plugin].Conn.Kill(false)
+					} else {
+						go func() { e.S.SetGName(fmt.Sprintf("fault-stop-%d", ki)); plugs[kl.Plugin].Stub.Stop() }()
+					}
+				}})
+		}
 		rets := make([][]*c19Ret, len(plugs))
 		for k, p := range plugs {
 			k, p := k, p
@@ -216,6 +259,19 @@ func c19Run(t *testing.T, wl any, sc SchedCfg) *Result {
 			for c, cl := range w.Calls[k] {
 				key := fmt.Sprintf("%s/%d", p.Name, c)
 				r := rets[k][c]
+				if df, dead := deadFrom[k]; dead && c >= df {
+					// the plugin's connection died during call df: only "at most once" is asserted from there on
+					if seen[key] > 1 {
+						res.Violate("C19.exactly-once", "call %s reached the runtime callback %d times", key, seen[key])
+					}
+					if cl.N == 0 {
+						empties += 0
+					}
+					if !r.Done {
+						res.Violate("C19.liveness", "call %s of a plugin whose connection died never returned", key)
+					}
+					continue
+				}
 				if cl.N == 0 {
 					empties++
 				} else if seen[key] != 1 {
@@ -248,7 +304,17 @@ func c19Run(t *testing.T, wl any, sc SchedCfg) *Result {
 				}
 			}
 		}
-		if seen["empty"] != empties {
+		deadEmpties := 0
+		for k := range w.Plugins {
+			if df, dead := deadFrom[k]; dead {
+				for c, cl := range w.Calls[k] {
+					if c >= df && cl.N == 0 {
+						deadEmpties++
+					}
+				}
+			}
+		}
+		if seen["empty"] < empties || seen["empty"] > empties+deadEmpties {
 			res.Violate("C19.exactly-once", "%d empty update lists were sent, the callback saw %d", empties, seen["empty"])
 		}
 		// mutual exclusion
@@ -339,6 +405,11 @@ func c19Shrink(wl any) []any {
 	if w.Unstarted {
 		c := jsonClone(w)
 		c.Unstarted = false
+		out = append(out, c)
+	}
+	if len(w.Kills) > 0 {
+		c := jsonClone(w)
+		c.Kills = nil
 		out = append(out, c)
 	}
 	for i := range w.Callers {
